@@ -127,11 +127,14 @@ def sized(rng):
     """geometries around the sizes where an implementation could switch strategy (> 16, > 256, >= 1024
     vertices / parts), one below and one above each threshold"""
     out = []
+    e30 = Fraction(1, 1 << 30)      # not a float32 number next to these magnitudes: a reduced-precision path shows
     for n in (16, 17, 256, 257, 1023, 1024, 1100):
         k = 4
-        pts = [[Fraction(i, 16), Fraction(rng.randint(0, 8 << k), 1 << k)] for i in range(n)]
+        pts = [[Fraction(i, 16) + (e30 if i % 2 == 0 else 0), Fraction(rng.randint(0, 8 << k), 1 << k) + rng.choice([0, e30, -e30]) + 1]
+               for i in range(n)]
         out.append(g("LineString", pts))
-        mp = [[Fraction(rng.randint(0, 8 << k), 1 << k), Fraction(rng.randint(0, 8 << k), 1 << k)] for _ in range(n)]
+        mp = [[Fraction(rng.randint(0, 8 << k), 1 << k) + rng.choice([0, e30, -e30]) + 1,
+               Fraction(rng.randint(0, 8 << k), 1 << k) + rng.choice([0, e30, -e30]) + 1] for _ in range(n)]
         out.append(g("MultiPoint", mp))
     for n in (17, 257, 1025):
         out.append(g("Polygon", [_ring(n, 40, 40, 32, 10), _ring(max(3, n // 8), 40, 40, 4, 10)]))
